@@ -90,6 +90,7 @@ Record config := mkCfg {
   c_tab_stop : nat;
   c_indent_size : nat;
   c_prompt_limit : nat;
+  c_show_all : bool;                  (* completion_show_all_if_ambiguous: list the candidates at the first Tab *)
   c_has_helper : bool;
   c_complete : str -> nat -> nat * list str;     (* Completer::complete *)
   c_hint : str -> nat -> option str;             (* Hinter::hint (display = completion) *)
@@ -1453,7 +1454,8 @@ Section Editor.
         list_span_step start cands ;;;
         if Nat.ltb 1 (length cands) then
           beep ;;;
-          edo c <- next_cmd fuel true;
+          (* without show-all: wait for a second Tab; any other key goes to the main loop *)
+          edo c <- (if c_show_all cfg then eret CComplete else next_cmd fuel true);
           match c with
           | CComplete =>
             edo s1 <- eget;
